@@ -279,6 +279,31 @@ CALL_FORMS = {
 }
 
 
+def _n(v):
+    return ["num", str(v)]
+
+
+FLAG_PROGRAMS = {
+    "list": [["list", [[_n(1)], [_n(2)], [_n(3)]]]], "number": [_n(12)], "range": [_n(3), ["el", "ɾ"]], "nested": [["list", [[["list", [[_n(1)], [_n(2)]]]], [_n(3)]]]],
+    "three-values": [_n(1), _n(2), _n(3)], "empty": [], "printed": [_n(5), ["el", ","]], "print-keep": [["list", [[_n(1)], [_n(2)]]], ["el", "…"]],
+    "map": [_n(3), ["map", [["el", "d"]]]], "for-range": [_n(3), ["for", None, [["el", "n"]]]], "map-range": [_n(2), ["map", [["el", "ɾ"]]]],
+    "filter-range": [_n(4), ["flt", [["el", "∷"]]]], "vectorised": [_n(3), ["mod", "v", [["el", "ɾ"]]]], "sum-range": [_n(4), ["el", "ɾ"], ["el", "∑"]],
+    "no-newline": [_n(7), ["el", "₴"], _n(8)], "input-top": [["el", "?"]], "two-lists": [["list", [[_n(1)]]], ["list", [[_n(2)], [_n(0)]]]],
+}
+
+
+def _shard_flags(rec, arg):
+    shard, nshards = arg
+    i = 0
+    for name, prog in FLAG_PROGRAMS.items():
+        for flag in FLAGS:
+            for ins in ([], [7], [[4, 5], 2]):
+                i += 1
+                if i % nshards != shard:
+                    continue
+                _do(rec, prog, ins, flag, ["flag-matrix", f"program {name}"])
+
+
 def _shard_calls(rec, arg):
     import itertools
 
@@ -291,7 +316,8 @@ def _shard_calls(rec, arg):
                 i += 1
                 if i % nshards != shard:
                     continue
-                for ins, flag in (([], ""), ([5, 8], "W")):
+                rot = [([5, 8], "W"), ([3, [1, 2]], "j"), ([], "s"), ([4], "o"), ([], "O"), ([2], "H"), ([], "M"), ([1], "m")]
+                for ins, flag in (([], ""), rot[i % len(rot)]):
                     _do(rec, form(body), ins, flag, ["exhaustive-call-forms", f"form {name}"])
     if shard == 0:
         rec.sample({"program": progs.render(CALL_FORMS["dagger2"]([["el", "_"], ["el", "_"], ["el", "-"]])), "inputs": [], "flag": ""})
@@ -303,6 +329,8 @@ def run(rec, tier, seed):
     maxlen = 2 if quick else 3
     campaign.parallel(rec, _shard_calls, [(s, ns * 2, maxlen) for s in range(ns * 2)])
     rec.exhaustive.append(f"all bodies of length<={maxlen} over {len(BODY_ALPHABET)} stack/arithmetic elements in {len(CALL_FORMS)} call forms x 2 input/flag settings")
+    campaign.parallel(rec, _shard_flags, [(s, ns) for s in range(ns)])
+    rec.exhaustive.append(f"flag matrix: {len(FLAG_PROGRAMS)} programs x {len(FLAGS)} flags x 3 input lists")
     n = 120 if quick else 10000
     campaign.parallel(rec, _shard_hyp, [(seed * 1000 + i, n) for i in range(ns)])
 
